@@ -80,6 +80,15 @@ def decl_specs(tier):
             specs.append({'P': PKT('W', [('pre', I(1)), ('body', R(K))]), 'tag': 'elem-aligned %d %s b' % (al, en), 'sig': 'element alignment'})
             K2 = PKT('K', [('h', I(1)), ('l', S(elem, until={'u': 'len_eq', 'v': 2}, aligned=al)), ('z', I(1))])
             specs.append({'P': K2, 'tag': 'elem-aligned-until %d %s' % (al, en), 'sig': 'element alignment'})
+    # an explicit per-element alignment inside a class that has a class-wide one: the explicit one places the elements
+    for M in (2, 4):
+        for N in (1, 2, 3, 4):
+            if N == M:
+                continue
+            for elem, en in ((I(1), 'int'), (D(C(3)), 'data3')):
+                K = PKT('K', [('h', I(1)), ('n', I(1)), ('l', S(elem, F('n'), aligned=N)), ('z', I(1))], align=M)
+                specs.append({'P': K, 'tag': 'class-align %d elem-aligned %d %s' % (M, N, en), 'sig': 'element alignment under class align'})
+                specs.append({'P': PKT('W', [('pre', I(1)), ('body', R(K))]), 'tag': 'class-align %d elem-aligned %d %s b' % (M, N, en), 'sig': 'element alignment under class align'})
     # a byte-less field (Em / empty Data) placed beyond the data, followed by a non-empty field placed BEFORE it
     for far in (pos(EM(), 'at', C(6)), pos(EM(), 'aligned', C(4)), pos(D(C(0)), 'at', C(7)), pos(EM(), 'aligned', C(3), ref='innermost-pkt')):
         for back in (pos(I(1), 'at', C(2)), pos(D(C(2)), 'shift', C(-3)), pos(I(1), 'at', C(1), ref='begins')):
